@@ -8,6 +8,7 @@ From Coq Require Import ZArith Reals Floats Bool List Permutation.
 From Flocq Require Import Core.Core IEEE754.BinarySingleNaN IEEE754.PrimFloat.
 From Geo Require Import Base.GoPrim Base.F64 Gen.R3 Gen.S2Point Gen.Isect Model.IsectExact.
 From Geo Require Import Proofs.C16_F64Exact Proofs.C16_Exact Proofs.C16_Coll Proofs.C16_Witness Proofs.C16_Acc.
+From Geo Require Import Proofs.C16_Sym Proofs.C16_Final.
 Import ListNotations.
 Local Open Scope R_scope.
 
@@ -137,3 +138,114 @@ Theorem c16_compareEdges_shared_min_not_antisymmetric :
   s2_compareEdges o p o q = true /\ s2_compareEdges o q o p = true.
 Proof. exact compareEdges_shared_min_not_antisymmetric. Qed.
 Print Assumptions c16_compareEdges_shared_min_not_antisymmetric.
+
+(** the stable path's acceptance threshold is the documented one (witness pair, see Proofs) *)
+Theorem c16_stable_threshold_witness : snd (stable4 t_rej) = false /\ snd (stable4 t_acc) = true.
+Proof. exact stable_threshold_witness. Qed.
+Print Assumptions c16_stable_threshold_witness.
+
+(** * order independence of the stable path: closed, exact IEEE-754 identities only *)
+
+(** isect_symmetric: when the stable path decides (ok = true), reversing either edge or swapping
+    the two edges gives the SAME float triple (Leibniz equality, i.e. bit-identical), for any
+    model [exact] of the fallback.  Premises, all computable tests on the inputs: no NaN; the
+    smaller endpoints of the two edges differ (edges that cross share no vertex); the two
+    endpoint offsets used by projection are distinguishable when equidistant; the stable point
+    is finite and its hemisphere dot product is neither zero nor NaN. *)
+Theorem c16_isect_symmetric : forall exact a0 a1 b0 b1 pt, side_conditions_b a0 a1 b0 b1 = true ->
+  s2_intersectionStable a0 a1 b0 b1 = (pt, true) -> finite3f (s2_Point_Vector pt) ->
+  decisive_b (r3_Vector_Dot (s2_Point_Vector pt) (vertex_sum a0 a1 b0 b1)) = true ->
+  s2_Intersection_with exact a1 a0 b0 b1 = s2_Intersection_with exact a0 a1 b0 b1 /\
+  s2_Intersection_with exact a0 a1 b1 b0 = s2_Intersection_with exact a0 a1 b0 b1 /\
+  s2_Intersection_with exact b0 b1 a0 a1 = s2_Intersection_with exact a0 a1 b0 b1.
+Proof. exact isect_symmetric_b. Qed.
+Print Assumptions c16_isect_symmetric.
+
+(** the mechanisms, each for ALL float inputs unless a guard is written *)
+Theorem c16_sub_anti : forall x y : PrimFloat.float, fneg (PrimFloat.sub y x) (PrimFloat.sub x y).
+Proof. exact fsub_anti. Qed.
+Print Assumptions c16_sub_anti.
+
+Theorem c16_abs_sub_swap : forall x y : PrimFloat.float,
+  PrimFloat.abs (PrimFloat.sub x y) = PrimFloat.abs (PrimFloat.sub y x).
+Proof. exact fabs_sub_swap. Qed.
+Print Assumptions c16_abs_sub_swap.
+
+Theorem c16_mul_comm : forall x y : PrimFloat.float, PrimFloat.mul x y = PrimFloat.mul y x.
+Proof. exact fmul_comm. Qed.
+Print Assumptions c16_mul_comm.
+
+Theorem c16_add_comm : forall x y : PrimFloat.float, PrimFloat.add x y = PrimFloat.add y x.
+Proof. exact fadd_comm. Qed.
+Print Assumptions c16_add_comm.
+
+Theorem c16_mul_opp : forall x y : PrimFloat.float,
+  PrimFloat.mul (PrimFloat.opp x) y = PrimFloat.opp (PrimFloat.mul x y).
+Proof. exact fmul_opp_l. Qed.
+Print Assumptions c16_mul_opp.
+
+Theorem c16_dot_comm : forall v w, r3_Vector_Dot v w = r3_Vector_Dot w v.
+Proof. exact dot_comm. Qed.
+Print Assumptions c16_dot_comm.
+
+Theorem c16_edge_length_symmetric : forall v w,
+  r3_Vector_Norm2 (r3_Vector_Sub v w) = r3_Vector_Norm2 (r3_Vector_Sub w v).
+Proof. exact norm2_sub_swap. Qed.
+Print Assumptions c16_edge_length_symmetric.
+
+Theorem c16_stable_normal_anti : forall x y,
+  fneg3 (r3_Vector_Cross (r3_Vector_Sub y x) (r3_Vector_Add y x))
+        (r3_Vector_Cross (r3_Vector_Sub x y) (r3_Vector_Add x y)).
+Proof. exact stable_normal_anti. Qed.
+Print Assumptions c16_stable_normal_anti.
+
+Theorem c16_robustNormalWithLength_antisym : forall x y,
+  snd (s2_robustNormalWithLength y x) = snd (s2_robustNormalWithLength x y) /\
+  fneg3 (fst (s2_robustNormalWithLength y x)) (fst (s2_robustNormalWithLength x y)).
+Proof. exact robustNormalWithLength_antisym. Qed.
+Print Assumptions c16_robustNormalWithLength_antisym.
+
+Theorem c16_compareEdges_reverse : forall a0 a1 b0 b1, nnp a0 -> nnp a1 -> nnp b0 -> nnp b1 ->
+  s2_compareEdges a1 a0 b0 b1 = s2_compareEdges a0 a1 b0 b1 /\
+  s2_compareEdges a0 a1 b1 b0 = s2_compareEdges a0 a1 b0 b1.
+Proof. exact compareEdges_reverse. Qed.
+Print Assumptions c16_compareEdges_reverse.
+
+Theorem c16_compareEdges_antisym : forall a0 a1 b0 b1, nnp a0 -> nnp a1 -> nnp b0 -> nnp b1 ->
+  kmin a0 a1 <> kmin b0 b1 -> s2_compareEdges b0 b1 a0 a1 = negb (s2_compareEdges a0 a1 b0 b1).
+Proof. exact compareEdges_antisym. Qed.
+Print Assumptions c16_compareEdges_antisym.
+
+Theorem c16_projection_reverse : forall x aNorm aNorm' len a0 a1, proj_ok x a0 a1 -> fneg3 aNorm' aNorm ->
+  snd (s2_projection x aNorm' len a1 a0) = snd (s2_projection x aNorm len a0 a1) /\
+  fneg (fst (s2_projection x aNorm' len a1 a0)) (fst (s2_projection x aNorm len a0 a1)).
+Proof. exact projection_reverse. Qed.
+Print Assumptions c16_projection_reverse.
+
+Theorem c16_stable_swap : forall a0 a1 b0 b1, nnp a0 -> nnp a1 -> nnp b0 -> nnp b1 ->
+  nonnan (edge_len2 a0 a1) -> nonnan (edge_len2 b0 b1) -> kmin a0 a1 <> kmin b0 b1 ->
+  s2_intersectionStable b0 b1 a0 a1 = s2_intersectionStable a0 a1 b0 b1.
+Proof. exact stable_swap_symmetric. Qed.
+Print Assumptions c16_stable_swap.
+
+Theorem c16_sorted_reverse_second : forall a0 a1 b0 b1,
+  snd (s2_intersectionStableSorted a0 a1 b1 b0) = snd (s2_intersectionStableSorted a0 a1 b0 b1) /\
+  fneg3 (s2_Point_Vector (fst (s2_intersectionStableSorted a0 a1 b1 b0)))
+        (s2_Point_Vector (fst (s2_intersectionStableSorted a0 a1 b0 b1))).
+Proof. exact sorted_reverse_second. Qed.
+Print Assumptions c16_sorted_reverse_second.
+
+Theorem c16_sorted_reverse_first : forall a0 a1 b0 b1,
+  proj_ok (s2_Point_Vector b0) a0 a1 -> proj_ok (s2_Point_Vector b1) a0 a1 ->
+  snd (s2_intersectionStableSorted a1 a0 b0 b1) = snd (s2_intersectionStableSorted a0 a1 b0 b1) /\
+  fneg3 (s2_Point_Vector (fst (s2_intersectionStableSorted a1 a0 b0 b1)))
+        (s2_Point_Vector (fst (s2_intersectionStableSorted a0 a1 b0 b1))).
+Proof. exact sorted_reverse_first. Qed.
+Print Assumptions c16_sorted_reverse_first.
+
+(** sign fix + canonical zero map a point and its opposite (up to zero signs) to the same triple *)
+Theorem c16_finish_fneg3 : forall pt pt' S,
+  finite3f (s2_Point_Vector pt) -> fneg3 (s2_Point_Vector pt') (s2_Point_Vector pt) ->
+  decisive (r3_Vector_Dot (s2_Point_Vector pt) S) -> finish pt' S = finish pt S.
+Proof. exact finish_fneg3. Qed.
+Print Assumptions c16_finish_fneg3.
